@@ -64,11 +64,26 @@ fn run_diff(prim: &diff::Prim, script: &[diff::Op], acc: &mut Acc) {
     // which slots hold a future that has been polled (Pending) and not finished / cancelled
     let mut polled_pending = [false; 4];
     let mut send_pending = [false; 4];
+    // Notify only: slots whose future was picked by notify_one and has not been polled since
+    let mut notified_unobserved = [false; 4];
     let mut context = "";
     for (i, (a, b)) in real.iter().zip(sh.iter()).enumerate() {
         // bookkeeping on the reference run (before looking at step i's comparison)
         match &script[i] {
             diff::Op::Start(s, aop) => {
+                if matches!(prim, diff::Prim::Notify) && notified_unobserved[*s] {
+                    // dropping a future that notify_one had picked forwards the notification to another
+                    // registered waiter; which one (tokio: the oldest, the replacement: any) is left open
+                    notified_unobserved[*s] = false;
+                    let others: Vec<usize> = (0..4).filter(|x| *x != *s && polled_pending[*x] && !notified_unobserved[*x]).collect();
+                    if others.len() >= 2 {
+                        acc.add("scripts_cut_at_ambiguous_notify_forwarding", 1);
+                        return;
+                    }
+                    if let Some(o) = others.first() {
+                        notified_unobserved[*o] = true;
+                    }
+                }
                 if polled_pending[*s] && matches!(prim, diff::Prim::Notify) {
                     context = ":after-dropping-a-polled-waiter";
                 }
@@ -76,6 +91,19 @@ fn run_diff(prim: &diff::Prim, script: &[diff::Op], acc: &mut Acc) {
                 send_pending[*s] = matches!(aop, diff::AOp::Send(_)) && a == "started";
             }
             diff::Op::Cancel(s) => {
+                if matches!(prim, diff::Prim::Notify) && notified_unobserved[*s] {
+                    // dropping a future that notify_one had picked forwards the notification to another
+                    // registered waiter; which one (tokio: the oldest, the replacement: any) is left open
+                    notified_unobserved[*s] = false;
+                    let others: Vec<usize> = (0..4).filter(|x| *x != *s && polled_pending[*x] && !notified_unobserved[*x]).collect();
+                    if others.len() >= 2 {
+                        acc.add("scripts_cut_at_ambiguous_notify_forwarding", 1);
+                        return;
+                    }
+                    if let Some(o) = others.first() {
+                        notified_unobserved[*o] = true;
+                    }
+                }
                 if polled_pending[*s] && matches!(prim, diff::Prim::Notify) {
                     context = ":after-dropping-a-polled-waiter";
                 }
@@ -88,6 +116,7 @@ fn run_diff(prim: &diff::Prim, script: &[diff::Op], acc: &mut Acc) {
                 } else {
                     polled_pending[*s] = false;
                     send_pending[*s] = false;
+                    notified_unobserved[*s] = false;
                 }
             }
             diff::Op::Now(diff::NOp::NotifyOne) if polled_pending.iter().filter(|x| **x).count() >= 2 => {
@@ -95,6 +124,15 @@ fn run_diff(prim: &diff::Prim, script: &[diff::Op], acc: &mut Acc) {
                 // oldest, the replacement: any, chosen by the scheduler's random stream)
                 acc.add("scripts_cut_at_ambiguous_notify_one", 1);
                 return;
+            }
+            diff::Op::Now(diff::NOp::NotifyOne) if matches!(prim, diff::Prim::Notify) => {
+                let waiters: Vec<usize> = (0..4).filter(|x| polled_pending[*x] && !notified_unobserved[*x]).collect();
+                if waiters.len() == 1 {
+                    notified_unobserved[waiters[0]] = true;
+                }
+            }
+            diff::Op::Now(diff::NOp::NotifyWaiters) if matches!(prim, diff::Prim::Notify) => {
+                // notify_waiters marks every registered waiter; those notifications are not forwarded
             }
             diff::Op::Now(diff::NOp::CloseSem) if polled_pending.iter().any(|x| *x) => {
                 // whether an acquisition that was already handed its permits, but has not been polled
